@@ -158,7 +158,7 @@ Ltac good_compl Hc :=
     eapply (good_cmd_compl_ints _ a [x1; x2; x3; x4; x5; x6] l c n)
   end;
   try reflexivity; try wtok_tac; try (let y := fresh "y" in intros y; reflexivity);
-  try exact Hc; try solve [ids_goal]; try solve [compl_ids_goal].
+  try exact Hc; try solve [compl_ids_goal]; try solve [ids_goal].
 
 Ltac inv_blk I :=
   apply invO_set_bblocks;
